@@ -251,6 +251,19 @@ def cases(run, rng):
         SEEN["iii"] += 1
         if not s6.startswith("EXC") and not (s6.endswith(" ORDER BY %ssort_key%s" % (q, q)) or s6.endswith(" ORDER BY %sfoo%s" % (q, q))):
             record("alias-ref", "_SetOperation", "ORDER BY of a set operation by a selected alias", qc, s6, "... ORDER BY <the alias or the expression>")
+    # ... nor does the NAME of an un-aliased selected column define an alias: ORDER BY / GROUP BY by another expression carrying that name as alias
+    for qc in QUERY_CLASSES:
+        ctx = qc.SQL_CONTEXT
+        t = P.Table("t")
+        q = ctx.quote_char
+        s7 = sql(qc.from_(t).select(t.a, t.c).orderby(t.b.as_("a")).orderby(T.Field("d", table=t).as_("c"), order=P.enums.Order.desc), ctx)
+        SEEN["iii"] += 1
+        if not s7.startswith("EXC") and " ORDER BY %sb%s,%sd%s DESC" % (q, q, q, q) not in s7:
+            record("alias-ref", "Field", "ORDER BY by an alias that is only the NAME of an un-aliased selected column", qc, s7, "... ORDER BY %sb%s,%sd%s DESC" % (q, q, q, q))
+        s8 = sql(qc.from_(t).select(t.a, t.c).groupby(t.b.as_("a")), ctx)
+        SEEN["iii"] += 1
+        if not s8.startswith("EXC") and " GROUP BY %sb%s" % (q, q) not in s8:
+            record("alias-ref", "Field", "GROUP BY by an alias that is only the NAME of an un-aliased selected column", qc, s8, "... GROUP BY %sb%s" % (q, q))
     # FROM / JOIN sources define an alias
     for qc in QUERY_CLASSES:
         ctx = qc.SQL_CONTEXT
